@@ -9,8 +9,11 @@ import (
 )
 
 // Issues returns a channel with gitlab project issues, ascending order.
-func Issues(ctx context.Context, client *gitlab.Client, pid string, since time.Time) <-chan *gitlab.Issue {
+// If the listing fails the channel is closed early: the returned function, to be called
+// once the channel is closed, tells if that happened.
+func Issues(ctx context.Context, client *gitlab.Client, pid string, since time.Time) (<-chan *gitlab.Issue, func() error) {
 	out := make(chan *gitlab.Issue)
+	var listErr error
 
 	go func() {
 		defer close(out)
@@ -24,6 +27,8 @@ func Issues(ctx context.Context, client *gitlab.Client, pid string, since time.T
 		for {
 			issues, resp, err := client.Issues.ListProjectIssues(pid, &opts, gitlab.WithContext(ctx))
 			if err != nil {
+				// written before the channel is closed, read after
+				listErr = err
 				return
 			}
 
@@ -39,7 +44,7 @@ func Issues(ctx context.Context, client *gitlab.Client, pid string, since time.T
 		}
 	}()
 
-	return out
+	return out, func() error { return listErr }
 }
 
 // Notes returns a channel with note events
